@@ -118,6 +118,12 @@ var Table = []TableEntry{
 	{Name: "fixed-lookbehind-loop-multi", AST: ast.Seq(ast.Group(ast.GLookbehind, ast.Seq(ast.Str("ab"), star(ast.Lit('a')))), ast.Lit('c')), Input: "abaac", Expect: "(4,1)", Origin: "fixed: 3a35cc2 (same root cause inside a lookbehind)"},
 }
 
+// FindingWitnesses are the witnesses of findings that are recorded (not repaired); Name is the key.
+var FindingWitnesses = []TableEntry{
+	{Name: "c01-auto-atomic-nonboundary", AST: ast.Seq(plus(short("W")), ast.Anchor(`\B`)), Input: "  a", Expect: "(0,1)",
+		Origin: "backtracking semantics: \\W+ gives one blank back, after which \\B holds between the two blanks"},
+}
+
 // TableCase converts an entry to a replayable Case.
 func TableCase(e TableEntry) Case {
 	root := e.AST.Clone()
